@@ -153,23 +153,34 @@ def getPath (j : Json) (key : String) (fileExists : Bool) : Bool :=
   | .ok _ => fileExists
   | .error _ => false
 
-/-- `get_config_serde::<Unit>`: a string that is one of the unit's serde names -/
+/-- the variant name of a unit-only enum (`DistanceUnit`, `TimeUnit`, `SpeedUnit`, `WeightUnit`) as
+serde reads it from a JSON value: the name as a string, or the externally tagged form of a unit
+variant, an object with the name as its single key and `null` as the value (`{"miles": null}`).
+`buffered`: the value sits inside an internally tagged enum, where serde deserialises from its
+buffered `Content`, whose unit is `null` or an empty map (`{"seconds": {}}`). -/
+def unitName? (buffered : Bool) : Json → Option String
+  | .str s => some s
+  | .obj [(k, .null)] => some k
+  | .obj [(k, .obj [])] => if buffered then some k else none
+  | _ => none
+
+/-- `serde_json::from_value::<Unit>` -/
+def unitOfJson {β : Type} (ofName : String → Option β) (buffered : Bool) (j : Json) : Option β :=
+  match unitName? buffered j with
+  | some s => ofName s
+  | none => none
+
+/-- `get_config_serde::<Unit>`: one of the unit's serde names (string or `{"name": null}`) -/
 def getUnit {β : Type} (ofName : String → Option β) (j : Json) (key : String) : Option β :=
   match j.get? key with
   | none => none
-  | some v =>
-    match v.asStr? with
-    | some s => ofName s
-    | none => none
+  | some v => unitOfJson ofName false v
 
 /-- `get_config_serde_optional::<Unit>`: absent = `some none`, present and wrong = `none` -/
 def getUnitOpt {β : Type} (ofName : String → Option β) (j : Json) (key : String) : Option (Option β) :=
   match j.get? key with
   | none => some none
-  | some v =>
-    match v.asStr? with
-    | some s => (ofName s).map some
-    | none => none
+  | some v => (unitOfJson ofName false v).map some
 
 /-- `Option::mapM` without the monad machinery -/
 def allSome {β γ : Type} (f : β → Option γ) : List β → Option (List γ)
@@ -344,13 +355,20 @@ def delayTableOfJson (dec : Nat → α) (kvs : List (String × Json)) : Option (
 
 /-- `TurnDelayModel` (internally tagged, `type = "tabular_discrete"`): table and time unit -/
 def turnDelayModelOfJson (dec : Nat → α) (j : Json) : Option (TimeUnit × List (Option α)) :=
-  match j.get? "type" with
-  | some (.str "tabular_discrete") =>
-    match j.get? "table", getUnit TimeUnit.ofName? j "time_unit" with
-    | some (.obj kvs), some tu =>
-      match delayTableOfJson dec kvs with
-      | some ds => some (tu, ds)
-      | none => none
+  -- serde's internally tagged representation: an object carrying `"type"`, or the positional form, a
+  -- sequence `["tabular_discrete", table, time_unit]` of exactly the tag and the two fields
+  let fields : Option (Option Json × Option Json) :=
+    match j with
+    | .obj _ =>
+      match j.get? "type" with
+      | some (.str "tabular_discrete") => some (j.get? "table", j.get? "time_unit")
+      | _ => none
+    | .arr [.str "tabular_discrete", t, u] => some (some t, some u)
+    | _ => none
+  match fields with
+  | some (some (.obj kvs), some u) =>
+    match unitOfJson TimeUnit.ofName? true u, delayTableOfJson dec kvs with
+    | some tu, some ds => some (tu, ds)
     | _, _ => none
   | _ => none
 
@@ -392,18 +410,19 @@ def turnDelayBuild [LT α] [DecidableLT α] [Lit α] (dec : Nat → α) (cfg : J
 
 /-! ### vehicle parameters -/
 
-/-- `(Distance, DistanceUnit)` by serde: an array of exactly a number and a unit name -/
+/-- `(Distance, DistanceUnit)` by serde: an array of exactly a number and a unit (its name, or the
+name as the single key of an object with value `null`) -/
 def dimOfJson (dec : Nat → α) : Option Json → Option (α × DistanceUnit)
-  | some (.arr [.num _ b, .str u]) =>
-    match DistanceUnit.ofName? u with
+  | some (.arr [.num _ b, uj]) =>
+    match unitOfJson DistanceUnit.ofName? false uj with
     | some du => some (dec b, du)
     | none => none
   | _ => none
 
 /-- `(Weight, WeightUnit)` -/
 def weightOfJson (dec : Nat → α) : Option Json → Option (α × WeightUnit)
-  | some (.arr [.num _ b, .str u]) =>
-    match WeightUnit.ofName? u with
+  | some (.arr [.num _ b, uj]) =>
+    match unitOfJson WeightUnit.ofName? false uj with
     | some wu => some (dec b, wu)
     | none => none
   | _ => none
@@ -489,12 +508,19 @@ def roadClassesOfQuery (mapping : List (String × Nat)) (q : Json) : Option (Opt
             | some cls => some (some cls)
             | none => none
 
-/-- `RoadClassParser` from the optional `road_class_parser` field: `{"mapping": {name: u8, …}}` -/
+/-- `RoadClassParser` from the optional `road_class_parser` field: `{"mapping": {name: u8, …}}` or `[{name: u8, …}]` -/
 def roadClassParserOfConfig (cfg : Json) : Option (List (String × Nat)) :=
   match cfg.get? "road_class_parser" with
   | none => some []
   | some p =>
-    match p.get? "mapping" with
+    -- a struct by serde: an object with the field, or the positional form — a sequence of exactly
+    -- its one field (`[{name: u8, …}]`)
+    let mapping : Option Json :=
+      match p with
+      | .arr [m] => some m
+      | .arr _ => none
+      | _ => p.get? "mapping"
+    match mapping with
     | some (.obj kvs) => allSome (fun kv => (u8OfJson kv.2).map (fun n => (kv.1, n))) kvs
     | _ => none
 
